@@ -92,9 +92,9 @@ SPEC = dict(
     manifest=dict(
         text="Lean theorems over all configurations, keys and key IDs: IsAccepted = the stated acceptance rule (accept_spec), "
              "GetReplaceKey = the documented SendKeyMode table per key class (replace_table, table tied to the compiled code by "
-             "`facts`), nothing leaves blank (never_blank), every endpoint except gRPC traces = accept-on-client-key-then-replace "
-             "(uniform_partial); uniformity is refuted for gRPC traces with a witness and the divergent (mode, key class) cells are "
-             "characterised exactly. Model tied to the code by running the complete finite grid on the real router and gRPC "
+             "`facts`), nothing leaves blank (never_blank), all six endpoints = accept-on-client-key-then-replace (uniform; the "
+             "second acceptance check of gRPC traces on the replaced key is proved redundant) and = the documented outcome "
+             "(endpoints_match_documentation). Model tied to the code by running the complete finite grid on the real router and gRPC "
              "handlers and comparing status, refusal reason and upstream key of every request with the model; monitor on the "
              "implementation's own answers against the documented outcome.",
         note="Trusted: Lean kernel; the differential check (grid complete, random part sampled); husky's blank-key refusal; "
